@@ -258,6 +258,8 @@ func C09_Positions() {
 	if verif.Tier() == 0 {
 		pads = pads[:2]
 	}
+	// source lengths that put the final line feed on a varint boundary
+	pads = append(pads, 218, 219, 220, 2266, 2267, 2268)
 	pad := pads[verif.Choice("pad", len(pads))]
 	mode := verif.Choice("reader", 2)
 	var sb strings.Builder
